@@ -152,18 +152,21 @@ func (r Registry) searchImport(name string) (*Package, bool) {
 // resolveImportConflict generates and assigns a unique alias for
 // packages with conflicting qualifiers.
 func (r Registry) resolveImportConflict(a, b *Package, lvl int) {
-	if a.uniqueName(lvl) == b.uniqueName(lvl) {
-		if lvl > strings.Count(a.Path(), "/")+strings.Count(b.Path(), "/") {
-			// Both paths are exhausted and still give the same name (they differ
-			// only in characters that are dropped from aliases): number a.
-			for n := 2; ; n++ {
-				name := a.uniqueName(lvl) + strconv.Itoa(n)
-				if _, ok := r.searchImport(name); !ok {
-					a.Alias = name
-					return
-				}
+	if lvl > strings.Count(a.Path(), "/")+strings.Count(b.Path(), "/") {
+		// Both paths are exhausted: the candidate names do not change any more.
+		// Either they are equal (the paths differ only in characters that are
+		// dropped from aliases) or aliases taken from the source files mirror
+		// each other's generated names and chase each other: number a.
+		for n := 2; ; n++ {
+			name := a.uniqueName(lvl) + strconv.Itoa(n)
+			if _, ok := r.searchImport(name); !ok {
+				a.Alias = name
+				return
 			}
 		}
+	}
+
+	if a.uniqueName(lvl) == b.uniqueName(lvl) {
 		r.resolveImportConflict(a, b, lvl+1)
 		return
 	}
